@@ -16,6 +16,7 @@ git apply -R $dst/patch.diff
 PYTHONPATH=$wt /venv/bin/python -W ignore _seeded/demo.py > /tmp/demo_without.txt 2>&1; without_rc=$?
 echo "tests: $tests | demo with patch rc=$with_rc | without rc=$without_rc"
 cd /verif
+cp evidence/$prop.json /tmp/evidence_keep_$$.json 2>/dev/null
 # checks run against a scratch worktree of /repo's HEAD with the patch applied (PYX12_REPO), so that /repo itself
 # stays untouched while other jobs read it; SEED_IN_REPO=1 applies to /repo instead (git apply / git checkout).
 if [ "${SEED_IN_REPO:-0}" = 1 ]; then
@@ -29,6 +30,7 @@ else
   out=$(PYX12_REPO=$hw ./check $prop --tier quick 2>&1 | grep -v "^\[check\]" | grep "VIOLATION\|RESULT" | head -8)
   git -C /repo worktree remove --force $hw
 fi
+cp /tmp/evidence_keep_$$.json evidence/$prop.json 2>/dev/null; rm -f /tmp/evidence_keep_$$.json
 echo "$out"
 python3 - "$dst" "$tests" "$with_rc" "$without_rc" "$prop" <<PY
 import json,sys
